@@ -859,6 +859,168 @@ def inproc_streams(ctx, work, cap):
     ctx.sample({"read": rc[len(rc) // 2]["script"], "brush": vouts[len(wc) + len(sc) + len(rc) // 2], "model": mouts[len(wc) + len(sc) + len(rc) // 2]})
 
 
+
+# ----------------------------------------------------------------------------------------------
+# cstat stream: `$?` / PIPESTATUS after commands whose words contain command substitutions,
+# for every (prior `$?`, substitution status) pair
+
+STATUSES = [0, 1, 2, 3, 127, 255]
+CSTAT_PRELUDE = ('fx() { return $1; }\n'
+                 'gl() { (exit $1); local v=$(exit $2); echo "$3 $? ${PIPESTATUS[*]}"; }\n')
+
+
+def prior_cmd(form, p):
+    """a command that leaves `$?` = p"""
+    if form == "bang" and p in (0, 1):
+        return "! (exit %d)" % (1 - p)
+    if form == "andor":
+        return "(exit %d) && true" % p
+    if form == "subst":
+        return "z0=$(exit %d)" % p
+    if form == "fn":
+        return "fx %d" % p
+    return "(exit %d)" % p
+
+
+PRIOR_FORMS = ["plain", "bang", "andor", "subst", "fn"]
+
+
+def subst_text(form, c):
+    return {"exit": "$(exit %d)", "out": "$(echo hi; exit %d)", "ext": "$(sh -c 'exit %d')", "fn": "$(fx %d)",
+            "tick": "`exit %d`", "quoted": "\"$(exit %d)\""}[form] % c
+
+
+SUBST_BODY_FORMS = ["exit", "out", "fn", "tick", "quoted", "ext"]
+
+# name: (command template with {S} = the substitution with status c, {S2} = one with status 2, {P} = one with the
+#        prior status; model request kind; statuses of the substitutions performed, as a function of (p, c);
+#        how the line reports: "plain" | "bang" | "if" | "or")
+CARRIERS = [
+    ("assign",        "x={S}",                 "a",  lambda p, c: [c],    "plain"),
+    ("assign_two_in_word", "x={S2}{S}",        "a",  lambda p, c: [2, c], "plain"),
+    ("assign_prior_then", "x={P}{S}",          "a",  lambda p, c: [p, c], "plain"),
+    ("assign_two_words", "x={S2} y={S}",       "a",  lambda p, c: [2, c], "plain"),
+    ("assign_then_plain", "x={S} y=plain",     "a",  lambda p, c: [c],    "plain"),
+    ("assign_plain",  "x=plain$((1+1))",       "a",  lambda p, c: [],     "plain"),
+    ("assign_default", "x=${{nope:-{S}}}",     "a",  lambda p, c: [c],    "plain"),
+    ("assign_array",  "arr=({S})",             "a",  lambda p, c: [c],    "plain"),
+    ("assign_elem",   "arr[1]={S}",            "a",  lambda p, c: [c],    "plain"),
+    ("assign_append", "x+={S}",                "a",  lambda p, c: [c],    "plain"),
+    ("declare",       "declare x={S}",         "c0", lambda p, c: [c],    "plain"),
+    ("export",        "export x={S}",          "c0", lambda p, c: [c],    "plain"),
+    ("arg_true",      "true {S}",              "c0", lambda p, c: [c],    "plain"),
+    ("arg_false",     "false {S}",             "c1", lambda p, c: [c],    "plain"),
+    ("temp_assign",   "x={S} true",            "c0", lambda p, c: [c],    "plain"),
+    ("bang_assign",   "! x={S}",               "a",  lambda p, c: [c],    "bang"),
+    ("if_assign",     "if x={S}; then echo \"{ID} T\"; else echo \"{ID} F $?\"; fi", "a", lambda p, c: [c], "if"),
+    ("or_assign",     "x={S} || echo \"{ID} or $?\"", "a", lambda p, c: [c], "or"),
+]
+
+
+def gen_cstat_lines(ctx):
+    """one shell line per (carrier, prior form, p, c); returns list of dicts with the line, its id, the model
+    request and how to read the answer"""
+    lines = []
+    n = 0
+    for ci, (name, tmpl, kind, codes, report) in enumerate(CARRIERS):
+        for pi, pform in enumerate(PRIOR_FORMS):
+            for a, p in enumerate(STATUSES):
+                for b, c in enumerate(STATUSES):
+                    # quick: the prior form rotates (every (carrier, p, c) once); thorough: the full product
+                    if ctx.quick and pi != (ci + a + b) % len(PRIOR_FORMS):
+                        continue
+                    n += 1
+                    ident = "L%d" % n
+                    body = SUBST_BODY_FORMS[(n + ci) % len(SUBST_BODY_FORMS)]
+                    cmd = tmpl.format(S=subst_text(body, c), S2=subst_text("exit", 2), P=subst_text("exit", p), ID=ident)
+                    line = prior_cmd(pform, p) + "; " + cmd
+                    if report in ("plain", "bang"):
+                        line += '; echo "%s $? ${PIPESTATUS[*]}"' % ident
+                    elif report == "or":
+                        line += '; echo "%s end"' % ident
+                    lines.append({"id": ident, "carrier": name, "prior_form": pform, "p": p, "c": c, "line": line, "report": report,
+                                  "req": "C11 cstat %d %s %s" % (p, kind, " ".join(map(str, codes(p, c))))})
+    # `local` needs a function; pipelines after an equal status
+    for a, p in enumerate(STATUSES):
+        for b, c in enumerate(STATUSES):
+            n += 1
+            lines.append({"id": "L%d" % n, "carrier": "local", "prior_form": "plain", "p": p, "c": c, "report": "plain",
+                          "line": "gl %d %d L%d" % (p, c, n), "req": "C11 cstat %d c0 %d" % (p, c)})
+            for name, tmpl, want in (("pipe_equal", "(exit {c}) | (exit {c})", [c, c]), ("pipe_assign_first", "x=$(exit {p}) | (exit {c})", [p, c]),
+                                     ("pipe_true_last", "(exit {c}) | true", [c, 0])):
+                n += 1
+                pform = PRIOR_FORMS[(a + b + n) % len(PRIOR_FORMS)]
+                lines.append({"id": "L%d" % n, "carrier": name, "prior_form": pform, "p": p, "c": c, "report": "pipe",
+                              "line": prior_cmd(pform, p) + "; " + tmpl.format(p=p, c=c) + '; echo "L%d $? ${PIPESTATUS[*]}"' % n,
+                              "req": "C11 wait 0 0 " + " ".join(map(str, want))})
+    return lines
+
+
+def expected_report(l, m):
+    """the text the line prints, given the model's answer"""
+    ident = l["id"]
+    if l["report"] == "pipe":
+        st, ps = m.split(" ")
+        return ["%s %s %s" % (ident, st, ps.replace(",", " "))]
+    st = int(m)
+    if l["report"] == "plain":
+        return ["%s %d %d" % (ident, st, st)]
+    if l["report"] == "bang":
+        return ["%s %d %d" % (ident, 1 if st == 0 else 0, st)]
+    if l["report"] == "if":
+        return ["%s T" % ident] if st == 0 else ["%s F %d" % (ident, st)]
+    if l["report"] == "or":
+        return (["%s or %d" % (ident, st)] if st != 0 else []) + ["%s end" % ident]
+    raise ValueError(l["report"])
+
+
+def cstat_stream(ctx, work):
+    lines = gen_cstat_lines(ctx)
+    mouts = lib.run_drv_parallel([l["req"] for l in lines], workers=8)
+    # batches of lines per script (one shell each for brush in-process and for bash)
+    per = 48
+    batches = [lines[i:i + per] for i in range(0, len(lines), per)]
+    scripts = [CSTAT_PRELUDE + 'exec > "$OUT"\n' + "\n".join(l["line"] for l in bt) + "\n" for bt in batches]
+    vouts = run_inproc(scripts)
+    bouts = run_bash_scripts(work, scripts)
+
+    def by_id(text):
+        d = {}
+        for ln in text.split("\n"):
+            if ln.startswith("L") and " " in ln:
+                d.setdefault(ln.split(" ")[0], []).append(ln)
+        return d
+
+    nv = 0
+    k = 0
+    for bt, v, b in zip(batches, vouts, bouts):
+        if v in ("HANG", "PANIC") or v.startswith("bad"):
+            ctx.violation("in-process brush %s on a batch of status lines" % v, {"script": CSTAT_PRELUDE + 'exec > "$OUT"\n' + bt[0]["line"] + "\n", "kind": "cstat"})
+            k += len(bt)
+            continue
+        got = by_id(unesc(parse_vh(v).get("out", "%")))
+        ref = by_id(b["file"])
+        for l in bt:
+            m = mouts[k]
+            k += 1
+            ctx.count(("cstat", l["carrier"], l["prior_form"], l["p"], l["c"]), nontrivial=l["p"] == l["c"] or l["c"] != 0, bucket="cstat_" + l["carrier"])
+            if l["p"] == l["c"] and l["c"] != 0:
+                ctx.bucket("cstat_prior_equals_substitution_status")
+            ctx.impl_validated += 1
+            want = expected_report(l, m)
+            gb, gr = got.get(l["id"], []), ref.get(l["id"], [])
+            if gr != want:
+                ctx.oracle_mismatch += 1
+            direct = None if gb == gr else "`$?`/PIPESTATUS after `%s` differ from bash (prior $? %d, substitution status %d)" % (l["carrier"], l["p"], l["c"])
+            if gb != want or direct:
+                if nv < 12:
+                    nv += 1
+                    case = {"kind": "cstat", "carrier": l["carrier"], "prior_form": l["prior_form"], "prior": l["p"], "substitution_status": l["c"],
+                            "script": CSTAT_PRELUDE + 'exec > "$OUT"\n' + l["line"] + "\n", "brush": gb, "bash": gr, "model": want}
+                    ctx.violation(direct or "status after a command with substitutions: brush and the model disagree", case,
+                                  kind="property" if direct else "correspondence")
+    ctx.sample({"cstat": lines[7]["line"], "model": mouts[7]})
+
 # ----------------------------------------------------------------------------------------------
 
 def run(ctx):
@@ -874,6 +1036,7 @@ def run(ctx):
     try:
         pipe_stream(ctx, work, cap)
         inproc_streams(ctx, work, cap)
+        cstat_stream(ctx, work)
         bad_utf8_stream(ctx)
     finally:
         work.close()
@@ -881,6 +1044,9 @@ def run(ctx):
                        "stages (form within the class and payload size rotate), seeded random 2-4 stage pipelines over all %d forms; payload "
                        "sizes 1 B .. %s around the measured pipe capacity %d; each run by bash (oracle, timed), brush (deadline bash*20+10 s) and "
                        "the model under two extreme schedules; completing pipelines re-run under each stage_spawned pause point; "
+                       "cstat: every (prior $?, substitution status) pair over {0,1,2,3,127,255} in 22 carrier forms (assignment-only, several "
+                       "substitutions/assignments, declare/export/local, argument, temporary assignment, !/if/||, pipelines), prior status left by "
+                       "a plain command, !, an && operand, an earlier substitution or a function; "
                        "wait/subst/read: exhaustive small + seeded random through the in-process harness; non-trivial = payload > 1 byte / "
                        "more than one stage / text with trailing newline / at least one read of a multi-line text"
                        % (len(FORMS), "1 MiB" if ctx.quick else "4 MiB", cap))
